@@ -3,7 +3,7 @@ import os
 import json
 
 from .probe_core import (  # noqa: F401
-    canon, enc, make, probe_call, Probe, make_fn, ProbeFailure, _cv,
+    canon, enc, make, probe_call, Probe, make_fn, ProbeFailure, FAIL_EXCS, _cv,
 )
 from . import probe_core
 
